@@ -158,15 +158,22 @@ def parse_doc(text):
     return et_to_sx(root)
 
 
-def math_elems(s):
+# PrinterImpl::printMath: std::regex (ECMAScript) "<\\?xml[[:space:]]+version=.*\\?>": "." stops at line terminators,
+# ".*" is GREEDY (two declarations on one line: everything between them goes too)
+_DECL_GREEDY = re.compile("<\\?xml[ \t\n\r\v\f]+version=[^\n\r\u2028\u2029]*\\?>")
+_DECL_EXACT = re.compile("<\\?xml[ \t\n\r\v\f]+version=[^\n\r\u2028\u2029]*?\\?>")
+
+
+def math_elems(s, greedy=True):
     """what printMath makes of a math string: the children of the wrapper element, text trimmed.
-    -> list of sxml texts, or None when the wrapped string is not well-formed"""
+    -> list of sxml texts, or None when the wrapped string is not well-formed.
+    greedy=False: the reference reading (each XML declaration removed on its own), used by the oracle on the ORIGINAL"""
     if isinstance(s, bytes):
         try:
             s = s.decode("utf-8")
         except UnicodeDecodeError:
             return None
-    s = re.sub(r"<\?xml[ \t\n\r]+version=.*\?>", "", s)
+    s = (_DECL_GREEDY if greedy else _DECL_EXACT).sub("", s)
     try:
         root = ET.fromstring("<w>" + s + "</w>")
     except ET.ParseError:
@@ -184,11 +191,11 @@ def math_elems(s):
     return out
 
 
-def math_text(s):
+def math_text(s, greedy=True):
     """a math string read back from the library -> the text the model's [math_text] yields for the same elements"""
     if not s:
         return b""
-    el = math_elems(s)
+    el = math_elems(s, greedy)
     if el is None:
         return b"<<malformed>>" + (s if isinstance(s, bytes) else s.encode())
     return "".join(x + "\n" for x in el).encode()
@@ -388,7 +395,7 @@ def r15(tok):
     return repr(float("%.15g" % f))
 
 
-def dump_content(tree, round_numbers):
+def dump_content(tree, round_numbers, greedy=True):
     """dump.hpp tree -> canonical content: numbers through 15 digits (original side) or as read (re-parsed side),
     math normalised, linkage / same-other-orphan status and hasmodel dropped, unset order value ignored, sorted"""
     def go(x):
@@ -402,7 +409,7 @@ def dump_content(tree, round_numbers):
                 return (head, x[1])
             return (head, repr(float(r15(x[1]))) if round_numbers else repr(float(x[1])))
         if head in ("math", "testvalue", "resetvalue"):
-            return (head, math_text(_undq(x[1][1])))
+            return (head, math_text(_undq(x[1][1]), greedy))
         if head == "units" and len(x) == 3 and isinstance(x[1], tuple) and x[2] in ("linked", "unlinked", "foreign"):
             return ("units", go(x[1]))
         if head in ("var", "testvar"):
@@ -497,6 +504,12 @@ def classify_known(ctx, ent0):
         el = math_elems(ms)
         if el is None or any(not x.startswith(math_head) for x in el):
             ids.append("C02-non-mathml-math")
+            break
+    # C02-greedy-xml-declaration: two XML declarations on one line of a math string: the greedy regex of printMath
+    # takes everything between them, mathematics included
+    for ms in ent_math_strings(ent0):
+        if math_elems(ms, True) != math_elems(ms, False):
+            ids.append("C02-greedy-xml-declaration")
             break
     # C02-number-overflows-at-15-digits: a finite exponent / multiplier whose 15-digit text is beyond DBL_MAX
     for u in ent0[4]:
@@ -722,7 +735,8 @@ def evaluate(ctx, case, cpp_line, ml_line, names, stats):
     in_domain = valid or pb_fixed
     if in_domain:
         stats["in_domain"] += 1
-        c0 = dump_content(dump_tree(d0), True)
+        # the ORIGINAL's mathematics read by the reference (every XML declaration removed on its own)
+        c0 = dump_content(dump_tree(d0), True, greedy=False)
         c1 = dump_content(dump_tree(d1), False)
         fails = []
         if ci1:
@@ -747,6 +761,9 @@ def evaluate(ctx, case, cpp_line, ml_line, names, stats):
                 for k in known:
                     matched = k
                     break
+            if cls == "content" and "C02-greedy-xml-declaration" in known and dump_content(dump_tree(d0), True) == c1:
+                # read the printer's (greedy) way the original IS the re-parsed content: the loss is exactly that
+                matched = "C02-greedy-xml-declaration"
             if cls == "issues" and not pb_fixed and "C02-number-overflows-at-15-digits" in known \
                     and all(x in ("E:UNIT_ATTRIBUTE_MULTIPLIER_VALUE", "E:UNIT_ATTRIBUTE_EXPONENT_VALUE") for x in ci1):
                 matched = "C02-number-overflows-at-15-digits"
